@@ -191,6 +191,34 @@ def createNFT (pv : Nat) : Ty :=
 def recordProposalResult : Ty := lst 128 (.struct [hash256, u16, .bool])
 def nftDestroyFromSideChain : Ty := .struct [lst 128 hash256, lst 128 hash168, hash256]
 
+/-! CRCProposal: a 16-bit proposal type selects the layout; the lists are read by `for i < int(count)` -/
+
+def budget : Ty := .struct [u8, u8, u64]
+/-- category data, owner key, draft hash, and (from version 1) the draft data -/
+def crcHead (pv : Nat) : List Ty :=
+  [varString, .varBytes negativeBigLength, hash256] ++ (if 1 ≤ pv then [.varBytes maxProposalData] else [])
+/-- owner signature, CR council member DID and signature -/
+def crcTail : List Ty := [.varBytes signatureLength, hash168, .varBytes signatureLength]
+def crcNormal (pv : Nat) : Ty := .struct (crcHead pv ++ [.listI 128 budget, hash168] ++ crcTail)
+def crcChangeOwner (pv : Nat) : Ty :=
+  .struct (crcHead pv ++ [hash256, hash168, .varBytes negativeBigLength, .varBytes signatureLength] ++ crcTail)
+def crcClose (pv : Nat) : Ty := .struct (crcHead pv ++ [hash256] ++ crcTail)
+def crcSecretary (pv : Nat) : Ty :=
+  .struct (crcHead pv ++ [.varBytes negativeBigLength, hash168, .varBytes signatureLength] ++ crcTail)
+/-- upgrade-code proposals never carry draft data; `UpgradeCodeInfo` at its constant version 0 -/
+def crcUpgrade : Ty :=
+  .struct ([varString, .varBytes negativeBigLength, hash256, u32, varString, varString, hash256, .bool] ++ crcTail)
+def crcSideChain (pv : Nat) : Ty :=
+  .struct (crcHead pv ++ [varString, u32, hash256, u64, u32, varString] ++ crcTail)
+def crcReserveID (pv : Nat) : Ty := .struct (crcHead pv ++ [.listI 128 varString] ++ crcTail)
+def crcReceiveID (pv : Nat) : Ty := .struct (crcHead pv ++ [.listI 128 varString, hash168] ++ crcTail)
+def crcIDFee (pv : Nat) : Ty := .struct (crcHead pv ++ [u64, u32] ++ crcTail)
+/-- `CRCProposal`: every proposal type not listed (Normal, ELIP, …, unknown) has the normal layout -/
+def crcProposal (pv : Nat) : Ty :=
+  .tagged 2 [(0x0401, crcChangeOwner pv), (0x0402, crcClose pv), (0x0400, crcSecretary pv),
+             (0x0200, crcUpgrade), (0x0201, crcUpgrade), (0x0202, crcUpgrade), (0x0410, crcSideChain pv),
+             (0x0500, crcReserveID pv), (0x0501, crcReceiveID pv), (0x0502, crcIDFee pv)] (crcNormal pv)
+
 /-! DPoS confirm (core/types/payload/confirm.go, dposproposal.go, dposproposalvote.go) -/
 
 def dposProposal : Ty := .struct [.varBytes negativeBigLength, hash256, u32, .varBytes signatureLength]
@@ -278,9 +306,10 @@ def payloadOf : Nat → Cover
   | 0x71 => .covered createNFT
   | 0x72 => .covered fun _ => nftDestroyFromSideChain
   -- the other types `GetTransaction` knows
-  -- IllegalVoteEvidence (the accept byte of a vote is read non-canonically), ProposalResult (a `bool`
-  -- field) and CRCProposal are covered by the writer/reader mirror lemma only
-  | 0x0f | 0x15 | 0x25 => .uncovered
+  -- not canonical: the accept byte of a vote (read as "== 1"), a `bool`, int-cast loops and a `bool`
+  | 0x0f => .covered fun _ => dposIllegalVotes
+  | 0x15 => .covered fun _ => recordProposalResult
+  | 0x25 => .covered crcProposal
   | _ => .invalid
 
 /-- the fields of a transaction after the type byte, without the programs:
